@@ -17,7 +17,8 @@ RULE = ('random addresses (7 modes, asymmetric combinations incl. inconsistent o
         'bit flipped, other id type, first byte variations), every other option is preserved by bind(), inexpressible asymmetric '
         'addresses -> ValueError with nothing bound, set_* after bind / send,recv before bind or after close -> RuntimeError. The call '
         'results and setsockopt/bind arguments are compared with the extracted Coq wrapper model.'
-        ' Addresses also carry legal parameters their mode does not use (address_extension in Normal modes, ...): they must not reach the kernel.')
+        ' Addresses also carry legal parameters their mode does not use (address_extension in Normal modes, ...): they must not reach the kernel.'
+        ' (bind_bind) a second bind() of the same socket with another address: no option of the bound socket is rewritten; compared with the wrapper model.')
 ASSUME = ['identifiers within their documented ranges (11 / 29 bits); the Linux kernel is represented by Spec/Kernel.v']
 
 
